@@ -137,8 +137,10 @@ def _run_msgs(gen, items, custom_header, debug_log, rnd):
             sent_hdr = None
             try:
                 if custom_header:
-                    sent_hdr = Hdr(to_address=rnd.randint(0, 255),
-                                   from_address=rnd.randint(0, 255),
+                    # (the addresses that mean something to either side, and any other)
+                    addr = [0x80, 0x90, 0x91, 0xB0, 0xB0, 0x00, 0xFF, 0x55, rnd.randint(0, 255)]
+                    sent_hdr = Hdr(to_address=rnd.choice(addr),
+                                   from_address=rnd.choice(addr),
                                    packet_id=rnd.randint(0, 255), message_id=msg.message_id,
                                    message_length=size)
                     await tx.sock.send_with_header(sent_hdr, msg, psock.RETRY_IDEMPOTENT)
